@@ -303,6 +303,105 @@ def task_sensor(p, key, kmode, tier, seed):
     return part.d
 
 
+def float_sequence(p, order, e, kval):
+    """Real code in floats: one filter object, sensors updated in the given order, each from the same prior."""
+    with quiet():
+        pn, sn = pyh.noise_vals_from_env(p, e)
+        ekf = pyh.build_ekf_float(p, e, k=kval, pn=pn, sn=sn)
+        out = []
+        for key in order:
+            st = ekf.State(**{s: float(e[s]) for s in p.state})
+            cov = ekf.Covariance.from_data(pyh.float_cov(p.state, e))
+            rd = ekf.make_reading(key, **{r: float(e[f"z_{key}_{r}"]) for r in p.sensors[key]})
+            r = ekf.sensor_model(st, cov, sensor_key=key, sensor_reading=rd)
+            S = np.array(ekf.sensor_prediction_uncertainty[key], dtype=float)
+            inn = np.array(ekf.innovations[key], dtype=float).reshape(-1)
+            m = len(inn)
+            nis = float((inn.reshape(1, m) @ np.linalg.inv(S) @ inn.reshape(m, 1))[0, 0])
+            out.append({"sensor": key, "discarded": bool(r.state is st and r.covariance is cov), "nis": nis, "threshold": kval * math.sqrt(2 * m) + m})
+        return out
+
+
+def task_sequence(p, order, tier, seed):
+    """History dimension: several sensors of different sizes updated on ONE filter object; every decision in the
+    sequence must be the specification's decision for *its own* reading dimension (no state carried between calls)."""
+    part = Part()
+    part.program(p.id)
+    part.fn("python.ExtendedKalmanFilter.sensor_model", "python.ExtendedKalmanFilter.remove_innovation")
+    env = pyh.input_env(p)
+    pn, sn = pyh.noise_env(p)
+    k = z3.Real("k")
+    zin = {key: {r: z3.Real(f"z_{key}_{r}") for r in p.sensors[key]} for key in order}
+    aO = []
+    for k2 in p.sensors:
+        aO += pyh.spec_sensor(p, k2, env)[1]
+        aO += pyh.spec_jacobian(p, p.sensors[k2], p.s_readings(k2), p.s_state(), env)[1]
+    assumes = aO + pyh.noise_positive(pn, sn) + [k > 0]
+    Psym, _ = pyh.sym_cov(p.state)
+    key_base = f"py/sequence/{p.id}/{'>'.join(order)}"
+    tmo = tier_timeout_ms(tier)
+
+    def harness():
+        with installed(), quiet():
+            ekf = pyh.build_ekf_sym(p, env, pn, sn, k=SymReal(k))
+            flags = []
+            for key in order:
+                st = ekf.State(**pyh.sym_state_kwargs(p.state, env))
+                cov = ekf.Covariance.from_data(Psym.copy())
+                rd = ekf.make_reading(key, **{r: SymReal(zin[key][r]) for r in p.sensors[key]})
+                r = ekf.sensor_model(st, cov, sensor_key=key, sensor_reading=rd)
+                flags.append(r.state is st and r.covariance is cov)
+            return flags
+
+    leaves = explore(harness, assumes=assumes, config={"gate": "assume", "inverse": "cut"})
+    part.leaves(leaves)
+    if any(l.status != "ok" for l in leaves):
+        part.harness_error(f"{key_base}: {[l for l in leaves if l.status != 'ok'][:2]}")
+        return part.d
+    reported = False
+    for l in leaves:
+        flags = l.value
+        for idx, key in enumerate(order):
+            rs = p.s_readings(key)
+            m = len(rs)
+            hspec, _ = pyh.spec_sensor(p, key, env)
+            Xc = pyh.mat_z3(l.cuts[idx]["res"])
+            spec, _ = spec_decision(k, [zin[key][r] - hspec[r] for r in rs], Xc, m)
+            claim = spec if flags[idx] else z3.Not(spec)
+            q = solve(l.assumes + l.pc + [z3.Not(claim)], tmo)
+            part.record(q, f"{key_base}: call {idx + 1} ({key}, m={m}) {'discarded' if flags[idx] else 'applied'} on path {''.join('T' if d else 'F' for d in l.decisions[-len(order):])} => NIS test for m={m} agrees")
+            if q.status == "sat" and not reported:
+                rng = random.Random(seed)
+                for kval in (5.0, 3.0, 1.0, 8.0):
+                    for _ in range(40):
+                        e = {nm: rng.randint(-16, 16) / 8.0 for nm in env}
+                        e.update(pyh.seeded_cov_env(p.state, rng))
+                        for k2 in p.sensors:
+                            for r in p.sensors[k2]:
+                                e[f"sn_{k2}_{r}"] = rng.choice([0.25, 0.5, 1.0])
+                        for key2 in order:
+                            for r in p.sensors[key2]:
+                                e[f"z_{key2}_{r}"] = round(X.evalf(p.sensors[key2][r], e) + rng.randint(-48, 48) / 8.0, 6)
+                        try:
+                            got = pyh.gate_guard(lambda: float_sequence(p, order, e, kval))
+                        except pyh.GateRejected:
+                            continue
+                        part.d["witnesses"] += 1
+                        bad = [g for g in got if g["discarded"] != (g["nis"] > g["threshold"])]
+                        if bad:
+                            path = write_replay(PID, {"key": f"py/sequence/{p.id}", "info": {"kind": "sequence", "program": p.id, "order": list(order), "k": kval}, "inputs": e, "got": got})
+                            part.violation(f"py/sequence/{p.id}", f"after updating {order[0]} first, the filter {'discarded' if bad[0]['discarded'] else 'applied'} a {bad[0]['sensor']} reading with NIS={bad[0]['nis']:.4g} against threshold {bad[0]['threshold']:.4g} (k={kval})", path)
+                            reported = True
+                            break
+                    if reported:
+                        break
+                if not reported:
+                    part.d["inconclusive"].append(key_base + ": decision differs in the abstraction; not reproduced")
+                    reported = True
+    part.sample({"impl": "python sequence", "program": p.id, "order": list(order), "leaves": len(leaves)})
+    return part.d
+
+
 def py_tasks(tier, seed):
     ms = [1, 2, 3] if tier == "quick" else [1, 2, 3, 4, 8]
     t = [(task_decision, (m, tier, seed)) for m in ms]
@@ -311,6 +410,11 @@ def py_tasks(tier, seed):
         for key in p.sensors:
             t.append((task_sensor, (p, key, "sym", tier, seed)))
             t.append((task_sensor, (p, key, "none", tier, seed)))
+    t.append((task_sequence, (CP.P3(), ("one", "two"), tier, seed)))
+    t.append((task_sequence, (CP.P3(), ("two", "one"), tier, seed)))
+    if tier != "quick":
+        t.append((task_sequence, (CP.P10(), ("ta", "sb", "ta"), tier, seed)))
+        t.append((task_sequence, (CP.P10(), ("sb", "ta", "sb"), tier, seed)))
     return t
 
 
@@ -358,6 +462,14 @@ def replay(path):
             return 1
         print("not reproduced")
         return 0
+    if info["kind"] == "sequence":
+        ps = {p.id: p for p in CP.all_fixed()}
+        p = ps[info["program"]]
+        got = float_sequence(p, info["order"], r["inputs"], info["k"])
+        print(got)
+        bad = [g for g in got if g["discarded"] != (g["nis"] > g["threshold"])]
+        print("REPRODUCED" if bad else "not reproduced")
+        return 1 if bad else 0
     if info["kind"] == "sensor":
         ps = {p.id: p for p in CP.all_fixed()}
         p = ps[info["program"]]
